@@ -217,7 +217,19 @@ int main(void) {
       for (i = 0; i < h_nw - 2; i++) nodes[i] = (REF_INT)h_i(h_w[2 + i]);
       fprintf(out, "%s\n", h_status(ref_cell_replace_whole(ref_cell, (REF_INT)h_i(h_w[1]), nodes)));
     } else if (is_op("creplace_node", 3)) {
+      REF_INT old = (REF_INT)h_i(h_w[1]), item, cell, k, hang = 0;
       if (!nodes_ok(2, 1)) { fputs("bad-op\n", out); continue; }
+      /* harness guard: the while loop of ref_cell_replace_node never ends when a cell registered around `old`
+         does not contain `old` (only reachable after an error status left the store inconsistent) */
+      if (old != (REF_INT)h_i(h_w[2])) {
+        each_ref_cell_having_node(ref_cell, old, item, cell) {
+          int has = 0;
+          for (k = 0; k < ref_cell_node_per(ref_cell); k++)
+            if (old == ref_cell_c2n(ref_cell, k, cell)) has = 1;
+          if (!has) hang = 1;
+        }
+      }
+      if (hang) { fputs("hang\n", out); continue; }
       fprintf(out, "%s\n",
               h_status(ref_cell_replace_node(ref_cell, (REF_INT)h_i(h_w[1]), (REF_INT)h_i(h_w[2]))));
     } else if (0 == strcmp(op, "cwith")) {
